@@ -16,6 +16,7 @@ CONSTANTS
   Multis = {1}
   Queries <- MCQueriesD
   MaxCount = 12
+  Tracks = {0}
   Acts = {"edit", "move", "toggle", "list", "resize"}
 INIT Init
 NEXT Next
